@@ -42,7 +42,7 @@ func (d *LLDP) Write(b []byte) (n int, err error) {
 		return
 	}
 	n += o
-	if p, err = d.Chassis.Write(b[n:]); p == 0 {
+	if p, err = d.TTL.Write(b[n:]); p == 0 {
 		return
 	}
 	n += p
